@@ -64,6 +64,7 @@ static std::string state_str(RBC &r, const TagReg &reg)
 	auto add = [&](const std::string &k) { tags.push_back(reg_get(reg, k)); };
 	std::vector<RBC_TagCheck> *filters[7] = { &r.send, &r.echo, &r.ready, &r.request, &r.answer, &r.retrieve, &r.deliver };
 	for (auto f : filters) for (size_t i = 0; i < n; i++) for (auto &kv : (*f)[i]) add(kv.first);
+	for (auto &kv : r.awaited) add(kv.first);
 	for (auto &kv : r.mbar) add(kv.first);
 	for (auto &kv : r.dbar) add(kv.first);
 	for (auto &kv : r.e_d) add(kv.first);
@@ -101,6 +102,11 @@ static std::string state_str(RBC &r, const TagReg &reg)
 		for (size_t i = 0; i < n; i++) for (auto &kv : (*f)[i]) v.push_back(std::make_pair(i, idx(kv.first)));
 		std::sort(v.begin(), v.end());
 		std::vector<std::string> s; for (auto &x : v) s.push_back(std::to_string(x.first) + ":" + std::to_string(x.second)); tok.push_back(brk(s));
+	}
+	{ // the tags for which an r-request is outstanding
+		std::vector<size_t> v; for (auto &kv : r.awaited) v.push_back(idx(kv.first));
+		std::sort(v.begin(), v.end());
+		std::vector<std::string> s; for (auto x : v) s.push_back(std::to_string(x)); tok.push_back(brk(s));
 	}
 	RBC_TagMpz *tm[2] = { &r.mbar, &r.dbar };
 	for (auto m : tm) {
